@@ -18,6 +18,7 @@ import SJ.Drv.Typed
 import SJ.Drv.C07
 import SJ.Drv.C16x
 import SJ.Drv.StreamRaw
+import SJ.Drv.LexMath
 /-!
 `sjdriver` — reads case lines `op args… => impl-observation` on stdin, runs the Lean model and the
 executable specification on each, prints
@@ -49,6 +50,7 @@ def allHandlers : List (String × Handler) :=
     C07.handlers,
     C16x.handlers,
     StreamRaw.handlers,
+    LexMath.handlers,
   ]
 
 def findHandler (op : String) : Option Handler := (allHandlers.find? (·.1 == op)).map (·.2)
